@@ -6,7 +6,7 @@ from oracle_util import *  # noqa
 from protocol import from_real, pm
 
 ID = "C12"
-LEAN_MODULE = ["SCoda.Props.C13", "SCoda.Props.C12", "SCoda.Props.C12b", "SCoda.Props.C13b", "SCoda.Props.ViewTie", "SCoda.Props.StaticTie"]
+LEAN_MODULE = ["SCoda.Props.C13", "SCoda.Props.C12", "SCoda.Props.C12b", "SCoda.Props.C13b", "SCoda.Props.ViewTie", "SCoda.Props.StaticTie", "SCoda.Props.C12n"]
 CLAUSES = [
     ("one sequence per saved sequence, in the same order", ["SCoda.C13.one_per_group"]),
     ("save: summing the delta times of the written track puts every emitted event back on its original tick, in order, with pitch and velocity kept "
@@ -33,6 +33,8 @@ CLAUSES = [
      "ValueError for an empty one; signatures in force without any tick-distinctness hypothesis (two sequences that both start with 4/4 at tick 0 are covered)",
      ["SCoda.C13b.save_load_notes", "SCoda.C13b.save_load_notes_statement_false", "SCoda.C13b.save_load_succeeds", "SCoda.C13b.save_load_empty",
       "SCoda.C13b.save_load_time_signature_in_force", "SCoda.C13b.save_load_key_signature_in_force", "SCoda.C13b.key_table_round_trip", "SCoda.C13b.saved_key_parses"]),
+    ("NOTES and sounding set for MULTI-CHANNEL sequences (audit round 2 F5/A8): for sequences in which no two notes of equal pitch on different channels overlap or touch (the complement of D21's recorded class), and more generally for every sequence that stays well-formed with positive-length notes once the channels are forgotten (experimentally the exact class: touching is fine when the note-off is listed first), loaded sequence i holds exactly the notes of saved sequence i relabelled to channel 0, sounds pitch p at t iff saved sequence i did on some channel, has the same note-ons (pitch, tick, velocity), and the signatures in force are those saved",
+     ["SCoda.C12n.save_load_notes'", "SCoda.C12n.save_load_sounding'", "SCoda.C12n.save_load_notesX", "SCoda.C12n.save_load_soundingX", "SCoda.C12n.save_load_note_onsX", "SCoda.C12n.save_load_time_signature_in_forceX", "SCoda.C12n.save_load_key_signature_in_forceX", "SCoda.C12n.saved_saved'", "SCoda.C12n.saved'_savedX", "SCoda.C12n.touch_on_first_fuses"]),
 ]
 RULE = ("lists of 1-3 integer-tick well-formed single-channel sequences (<=6 notes, velocities 1..127, all 15 keys, "
         "signatures at arbitrary ticks on distinct ticks, leading rests); real file round trip through mido in a temp dir; "
@@ -52,6 +54,18 @@ def cross_channel_overlap(rels):
             for (c2, p2, on2, off2, _) in ns[i + 1:]:
                 if p1 == p2 and c1 != c2 and on1 <= off2 and on2 <= off1:
                     return True
+    return False
+
+
+def breaks_without_channels(rels):
+    """the exact class of D21 (found by experiment and proved sufficient in Props/C12n.lean, `SavedX`): with every channel set to 0, in the
+    order the sequence lists its messages, some saved sequence is no longer well-formed or gets a zero-length note.  Equal-pitch notes on
+    different channels that merely touch are fine when the note-off is listed before the note-on of that tick."""
+    for r in rels:
+        tr, _ = rel_timed(r)
+        mono = [(t, (m[0], 0) + tuple(m[2:])) for t, m in tr]
+        if wf_violations(mono) or any(on >= off for (_, _, on, off, _) in notes_of(mono)):
+            return True
     return False
 
 
@@ -152,7 +166,10 @@ def setup(ctx):
     ctx.oracle("save_load", o_save_load)
 
     def kf_d21(f):
-        return f["clause"] == "notes" and cross_channel_overlap([[tuple(m) for m in r] for r in f["input"]["rels"]])
+        rels = [[tuple(m) for m in r] for r in f["input"]["rels"]]
+        if f["input"].get("resave") is not None:
+            return f["clause"] == "notes" and cross_channel_overlap(rels)       # content changed since: judged on the wider class
+        return f["clause"] == "notes" and cross_channel_overlap(rels) and breaks_without_channels(rels)
     ctx.kf_predicates["D21"] = kf_d21
 
     def kf_d17b(f):
